@@ -22,8 +22,8 @@ class Opts:
         self.maxfan = 4
         self.nleaf = 5
         self.p_int = 0.3            # probability a leaf is integer valued
-        self.p_big = 0.15           # ... of which int16 extreme
-        self.p_const_leaf = 0.08
+        self.p_big = 0.2            # ... of which int16 extreme
+        self.p_const_leaf = 0.12    # ... of which constant (k,k)
         self.p_explicit = 0.5
         self.p_share = 0.12         # identity sharing of an already built sub-model
         self.p_copy = 0.05          # equal copy of an already generated sub-recipe
@@ -45,10 +45,10 @@ def make_pool(rng, o):
     for name in ids:
         if rng.random() < o.p_int:
             t = rng.random()
-            if t < o.p_const_leaf / max(o.p_int, 1e-9):
+            if t < o.p_const_leaf:
                 k = rng.randint(-3 if o.neg_bounds else 0, 3)
                 b = (k, k)
-            elif t < o.p_big + 0.1:
+            elif t < o.p_const_leaf + o.p_big:
                 b = rng.choice(INT16) if o.neg_bounds else (0, 32767)
             else:
                 lo = rng.randint(-3 if o.neg_bounds else 0, 2)
